@@ -106,6 +106,19 @@ Inductive status := INITIALIZED | CONNECTING | CONNECTING_IDLE | CONNECTED.
 Definition is_some {A : Type} (o : option A) : bool := match o with Some _ => true | None => false end.
 Definition mem (x : nat) (l : list nat) : bool := existsb (Nat.eqb x) l.
 
+(** [override l f g] is the function [fun x => if mem x l then f x else g x]; the new values are
+    tabulated when the override is built (the correspondence evaluates the model with the
+    call-by-value [vm_compute], nested closures would be re-evaluated on every read). *)
+Fixpoint tlookup {A : Type} (x : nat) (tbl : list (nat * A)) : option A :=
+  match tbl with
+  | [] => None
+  | (k, v) :: r => if Nat.eqb x k then Some v else tlookup x r
+  end.
+Definition override_tbl {A : Type} (tbl : list (nat * A)) (g : nat -> A) : nat -> A :=
+  fun x => match tlookup x tbl with Some v => v | None => g x end.
+Definition override {A : Type} (l : list nat) (f : nat -> A) (g : nat -> A) : nat -> A :=
+  override_tbl (map (fun x => (x, f x)) l) g.
+
 (** * The declared exchanges ("items") of a component *)
 Inductive item :=
 | IInInfo (i : nat)        (* in_infos[i] is not None *)
@@ -190,15 +203,15 @@ Section Helper.
     (** connect 375-382 *)
     Definition phase_cache (w : world) : world :=
       mk_world
-        (fun i => let st := wi w i in
-                  if mem i (c_ins c)
-                  then mk_istate (in_exch st) (upd_cache (ex_eff w i) (in_cache st)) (in_data st)
-                  else st)
-        (fun o => let st := wo w o in
-                  if mem o (c_outs c)
-                  then mk_ostate (o_info st) (o_exch st) (o_data st) (o_hinfo st) (o_ipushed st) (o_dpushed st)
-                                 (upd_cache (pi_eff w o) (o_icache st)) (upd_cache (pd_eff w o) (o_dcache st))
-                  else st).
+        (override (c_ins c)
+           (fun i => let st := wi w i in
+                     mk_istate (in_exch st) (upd_cache (ex_eff w i) (in_cache st)) (in_data st))
+           (wi w))
+        (override (c_outs c)
+           (fun o => let st := wo w o in
+                     mk_ostate (o_info st) (o_exch st) (o_data st) (o_hinfo st) (o_ipushed st) (o_dpushed st)
+                               (upd_cache (pi_eff w o) (o_icache st)) (upd_cache (pd_eff w o) (o_dcache st)))
+           (wo w)).
 
     (** _exchange_in_infos 476-500 (both loops): the request is the input's own info if it
         has one, else the cached one; Input.exchange_info -> Output.get_info succeeds iff the
@@ -212,16 +225,20 @@ Section Helper.
 
     Definition phase_exchange (w : world) : world :=
       mk_world
-        (fun i => let st := wi w i in
-                  if mem i (c_ins c) && fires_ex w i
-                  then mk_istate (ex_req w i)
-                                 (match is_own (sp_in sp i) with Some _ => in_cache st | None => None end)
-                                 (in_data st)
-                  else st)
-        (fun o => let st := wo w o in
-                  mk_ostate (o_info st)
-                            (o_exch st + length (filter (fun i => fires_ex w i && Nat.eqb (is_src (sp_in sp i)) o) (c_ins c)))%nat
-                            (o_data st) (o_hinfo st) (o_ipushed st) (o_dpushed st) (o_icache st) (o_dcache st)).
+        (override (c_ins c)
+           (fun i => let st := wi w i in
+                     if fires_ex w i
+                     then mk_istate (ex_req w i)
+                                    (match is_own (sp_in sp i) with Some _ => in_cache st | None => None end)
+                                    (in_data st)
+                     else st)
+           (wi w))
+        (override (map (fun i => is_src (sp_in sp i)) (c_ins c))
+           (fun o => let st := wo w o in
+                     mk_ostate (o_info st)
+                               (o_exch st + length (filter (fun i => fires_ex w i && Nat.eqb (is_src (sp_in sp i)) o) (c_ins c)))%nat
+                               (o_data st) (o_hinfo st) (o_ipushed st) (o_dpushed st) (o_icache st) (o_dcache st))
+           (wo w)).
 
     (** connect 386-393 with Output.info 70-78 *)
     Definition fires_oi (w : world) (o : nat) : bool :=
@@ -230,11 +247,13 @@ Section Helper.
 
     Definition phase_outinfo (w : world) : world :=
       mk_world (wi w)
-        (fun o => let st := wo w o in
-                  if mem o (c_outs c) && fires_oi w o
-                  then mk_ostate (o_info st) (o_exch st) (o_data st) (o_info st) (o_ipushed st) (o_dpushed st)
-                                 (o_icache st) (o_dcache st)
-                  else st).
+        (override (c_outs c)
+           (fun o => let st := wo w o in
+                     if fires_oi w o
+                     then mk_ostate (o_info st) (o_exch st) (o_data st) (o_info st) (o_ipushed st) (o_dpushed st)
+                                    (o_icache st) (o_dcache st)
+                     else st)
+           (wo w)).
 
     (** _push 505-511 *)
     Definition fires_pi (w : world) (o : nat) : bool :=
@@ -242,11 +261,13 @@ Section Helper.
 
     Definition phase_pushinfo (w : world) : world :=
       mk_world (wi w)
-        (fun o => let st := wo w o in
-                  if mem o (c_outs c) && fires_pi w o
-                  then mk_ostate (o_icache st) (o_exch st) (o_data st) (o_hinfo st) true (o_dpushed st)
-                                 None (o_dcache st)
-                  else st).
+        (override (c_outs c)
+           (fun o => let st := wo w o in
+                     if fires_pi w o
+                     then mk_ostate (o_icache st) (o_exch st) (o_data st) (o_hinfo st) true (o_dpushed st)
+                                    None (o_dcache st)
+                     else st)
+           (wo w)).
 
     (** _push 513-518 and _push_data 522-534; Output.push_data appends only when the output
         has targets (164-166) *)
@@ -262,15 +283,17 @@ Section Helper.
 
     Definition phase_pushdata (w : world) : world :=
       mk_world (wi w)
-        (fun o => let st := wo w o in
-                  if mem o (c_outs c) && fires_pd w o
-                  then match o_dcache st, o_hinfo st with
-                       | Some p, Some t =>
-                           mk_ostate (o_info st) (o_exch st) (o_data st ++ pushed_entries o t p) (o_hinfo st)
-                                     (o_ipushed st) true (o_icache st) None
-                       | _, _ => st
-                       end
-                  else st).
+        (override (c_outs c)
+           (fun o => let st := wo w o in
+                     if fires_pd w o
+                     then match o_dcache st, o_hinfo st with
+                          | Some p, Some t =>
+                              mk_ostate (o_info st) (o_exch st) (o_data st ++ pushed_entries o t p) (o_hinfo st)
+                                        (o_ipushed st) true (o_icache st) None
+                          | _, _ => st
+                          end
+                     else st)
+           (wo w)).
 
     (** Output._interpolate 340-361 for a request inside the published range; the request of the
         connect phase is the composition start. [None] = FinamTimeError (outside the domain). *)
@@ -306,10 +329,12 @@ Section Helper.
 
     Definition phase_pull (w : world) : world :=
       mk_world
-        (fun i => let st := wi w i in
-                  if mem i (c_ins c) && fires_pl w i
-                  then mk_istate (in_exch st) (in_cache st) (get_data w (is_src (sp_in sp i)))
-                  else st)
+        (override (c_ins c)
+           (fun i => let st := wi w i in
+                     if fires_pl w i
+                     then mk_istate (in_exch st) (in_cache st) (get_data w (is_src (sp_in sp i)))
+                     else st)
+           (wi w))
         (wo w).
 
     (** connect 410-416 *)
